@@ -40,6 +40,8 @@ pub struct WCfg {
     pub ignore_corrupted: bool,
     pub max_dirty: Option<u64>,
     pub debounce_ms: u64,
+    /// blob file name prefix ("t" everywhere except where a check varies it)
+    pub prefix: &'static str,
 }
 
 impl Default for WCfg {
@@ -54,6 +56,7 @@ impl Default for WCfg {
             ignore_corrupted: false,
             max_dirty: None,
             debounce_ms: 0,
+            prefix: "t",
         }
     }
 }
@@ -285,7 +288,7 @@ pub struct World<K: HKey> {
 pub fn builder(dir: &Path, cfg: &WCfg) -> Builder {
     let mut b = Builder::new()
         .work_dir(dir)
-        .blob_file_name_prefix("t")
+        .blob_file_name_prefix(cfg.prefix)
         .max_blob_size(cfg.max_blob_size)
         .max_data_in_blob(cfg.max_data_in_blob)
         .set_bloom_filter_group_size(cfg.group_size)
